@@ -35,22 +35,22 @@ type SlabGetter func(id atree.SlabID) (atree.Slab, bool, error)
 
 // TreeStats is what one walk observed.
 type TreeStats struct {
-	Slabs          int
-	DataSlabs      int
-	MetaSlabs      int
-	Depth          int
-	MaxChildren    int
-	Elements       int
-	InlinedSlabs   int
-	Standalone     int // nested containers stored as separate slabs
-	LargeValues    int
-	InlineGroups   int
-	ExternalGroups int
-	ListGroups     int // groups at the last level (no digests left)
-	MaxListLen     int
-	NearMax        int // size-limited slabs within 8 bytes of the upper bound
-	NearMin        int // non-root slabs within 8 bytes of the lower bound
-	CompactCand    int // inlined composite-typed maps (compact encoding candidates)
+	Slabs             int
+	DataSlabs         int
+	MetaSlabs         int
+	Depth             int
+	MaxChildren       int
+	Elements          int
+	InlinedSlabs      int
+	Standalone        int // nested containers stored as separate slabs
+	LargeValues       int
+	InlineGroups      int
+	ExternalGroups    int
+	ListGroups        int // groups at the last level (no digests left)
+	MaxListLen        int
+	NearMax           int // size-limited slabs within 8 bytes of the upper bound
+	NearMin           int // non-root slabs within 8 bytes of the lower bound
+	CompactCand       int // inlined composite-typed maps (compact encoding candidates)
 	UncollapsedGroups int // collision groups holding a single plain element (legal, never produced by the pinned library)
 }
 
